@@ -5,7 +5,6 @@ sys.path.insert(0, "/verif")
 NA = {
  "C34": "Round-trip equality of timestamp<->local-time arithmetic over every zone table and instant lives in numeric relations between the untils/offsets data and bisect results, not in code shape; no sound static clause in reach.",
  "C37": "Offset arithmetic of nested Replacer/Combiner maps: correctness is equality of computed positions for all texts and patch sets; no structural clause separates right from wrong offsets.",
- "C41": "Result of a short filter over runtime cell values and query values (membership, hashability); nothing but its values can be wrong, so static analysis has no necessary structural clause to decide.",
 }
 BASE = json.load(open("/root/.vp/BASELINE.json"))["cmd"].replace("--junitxml=<file>", "").strip()
 props = [json.loads(l) for l in open("/verif/properties.jsonl")]
